@@ -15,7 +15,7 @@ META = {
                   'enspara.ra.ra.RaggedArray (construction, row iteration, shape)'],
     'bounds': {'quick': '<=3 trajectories, each length 1..4 (all length vectors), lag 1..5, <=3 states, sliding window on/off, '
                         'ragged / padded-rectangular input, explicit or inferred state count; state ids symbolic',
-               'thorough': '<=3 trajectories of length 1..6 (lag 1..7) and 4 trajectories of length 1..3, <=4 states'},
+               'thorough': '<=3 trajectories of length 1..7 (lag 1..8) and 4 trajectories of length 1..3; 4 states up to 7 frames, 3 up to 10, 2 beyond'},
     'stubs': ['scipy.sparse.coo_matrix((data,(i,j)),shape) = SymCOO: duplicates summed, out-of-range indices rejected'],
     'assumptions': ['state ids in [0, n_states) (interior -1 entries are outside the property)',
                     'additivity over trajectory sets and invariance under reordering follow from the per-trajectory sum '
@@ -107,7 +107,7 @@ def counts_job(lengths, lag, S, sliding=True, form='ragged', explicit=True, orde
 def jobs(tier):
     J = []
     q = tier == 'quick'
-    Lmax = 4 if q else 6
+    Lmax = 4 if q else 7
     Smax = 3 if q else 4
 
     def add(name, **kw):
@@ -131,7 +131,7 @@ def jobs(tier):
         for lag in range(1, max(v) + 2):
             if q and len(v) == 3 and (lag > 2 or max(v) > 3):
                 continue
-            S = 2 if (sum(v) > (7 if q else 9)) else Smax
+            S = (2 if sum(v) > 7 else Smax) if q else (2 if sum(v) > 10 else 3 if sum(v) > 7 else Smax)
             for sliding in (True, False):
                 if not sliding and lag == 1:
                     continue
